@@ -439,7 +439,9 @@ class WebSocketApp:
             elif op_code == ABNF.OPCODE_PING:
                 self._callback(self.on_ping, frame.data)
             elif op_code == ABNF.OPCODE_PONG:
-                self.last_pong_tm = time.time()
+                if self.last_pong_tm < self.last_ping_tm:
+                    # the first pong after a ping answers it; further ones are unsolicited
+                    self.last_pong_tm = time.time()
                 self._callback(self.on_pong, frame.data)
             elif op_code == ABNF.OPCODE_CONT and self.on_cont_message:
                 self._callback(self.on_data, frame.data, frame.opcode, frame.fin)
